@@ -274,7 +274,7 @@ Definition to_sres (r : rres) : sres fstate devent :=
   | RPanic | RFuel => SDead (EvConnErr EOther)
   end.
 
-Definition sparse (eo : bool) (st : fstate) (b : bytes) : sres fstate devent :=
+Definition sparse (eo : psw) (st : fstate) (b : bytes) : sres fstate devent :=
   to_sres (read_frame_gen eo true true st b).
 
 Lemma sparse_ok_stable : forall eo s b f n s', sparse eo s b = SOk f n s' ->
